@@ -43,7 +43,7 @@ func computeConfinement(c *Ctx) *confinement {
 		if tn, ok := pkg.Types.Scope().Lookup(nm).(*types.TypeName); ok {
 			if st, ok := tn.Type().Underlying().(*types.Struct); ok {
 				for i := 0; i < st.NumFields(); i++ {
-					if st.Field(i).Name() == "actionChan" && st.Field(i).Type().String() == "chan func()" {
+					if ir.FieldName(tn.Type(), i) == "actionChan" && st.Field(i).Type().String() == "chan func()" {
 						isOwner[nm] = true
 						cf.owners = append(cf.owners, nm)
 					}
@@ -392,12 +392,4 @@ func fieldOfAddr(v ssa.Value, cf *confinement) (struct{ owner, field string }, b
 	return fkeyT{o, fieldNameOf(fa.X.Type(), fa.Field)}, true
 }
 
-func fieldNameOf(t types.Type, i int) string {
-	if p, ok := t.Underlying().(*types.Pointer); ok {
-		t = p.Elem()
-	}
-	if st, ok := t.Underlying().(*types.Struct); ok && i < st.NumFields() {
-		return st.Field(i).Name()
-	}
-	return fmt.Sprint(i)
-}
+func fieldNameOf(t types.Type, i int) string { return ir.FieldName(t, i) }
